@@ -62,10 +62,11 @@ def simp_deref(e):
 
 
 class Walker:
-    def __init__(self, fn, facts=None, keep_env=False):
+    def __init__(self, fn, facts=None, keep_env=False, depth=0):
         self.fn = fn
         self.facts = facts
         self.keep_env = keep_env
+        self.depth = depth
         self.paths = []
         self.npaths = 0
 
@@ -296,6 +297,25 @@ class Walker:
                     ce = ("call", t["fn"], t["full"], args, (fn.id, bi))
                 else:
                     ce = ("call", None, t.get("fnty"), (self.op_expr(t["fnop"], env, fenv),) + args, (fn.id, bi))
+                inl = self.inline_candidate(t)
+                if inl is not None:
+                    qs = self.facts.inline_paths(inl, self.depth)
+                    if qs is not None:
+                        mapping = {("param", i + 1): a for i, a in enumerate(args)}
+                        for q in qs:
+                            q2 = subst_path(q, mapping, bi)
+                            ev2 = list(events) + [("inlined", inl, args, bi)] + q2.events
+                            c2 = conds + q2.conds
+                            if q2.end != "return":
+                                self._finish(c2, ev2, None, q2.end, blocks, env, fenv)
+                                continue
+                            env2, fenv2 = dict(env), dict(fenv)
+                            self.assign(t["dest"], q2.ret if q2.ret is not None else ("unknown", "ret"), env2, fenv2, ev2, bi)
+                            if t["target"] is None:
+                                self._finish(c2, ev2, None, "diverge", blocks, env2, fenv2)
+                            else:
+                                self._walk(t["target"], env2, fenv2, c2, ev2, dict(known), blocks, onpath)
+                        return
                 events.append(("call", ce))
                 self.assign(t["dest"], ce, env, fenv, events, bi)
                 self.model_mem_fns(t, ce, env, fenv)
@@ -356,6 +376,16 @@ class Walker:
             # other terminators (resume etc.)
             self._finish(conds, events, None, "diverge", blocks, env, fenv)
             return
+
+    def inline_candidate(self, t):
+        F = self.facts
+        if F is None or not t.get("fn") or getattr(F, "known_fn_ids", None) is None:
+            return None
+        res = t.get("res") or {}
+        for fid in (res.get("def"), t.get("fn")):
+            if fid and fid != self.fn.id and F.is_new_fn(fid):
+                return fid
+        return None
 
     def model_mem_fns(self, t, ce, env, fenv):
         """std::mem::swap / replace / take on plain locals update the def-use environment"""
@@ -565,6 +595,23 @@ def short(e, depth=12):
     if t == "unknown":
         return "?%s" % e[1]
     return t
+
+
+def subst_path(p, mapping, at_block=None):
+    """a callee path with its parameters replaced by the caller's argument expressions"""
+    memo = {}
+    ev = []
+    for e in p.events:
+        if e[0] == "call":
+            ev.append(("call", subst_params(e[1], mapping, memo)))
+        elif e[0] == "assert":
+            ev.append(("assert", e[1], subst_params(e[2], mapping, memo), e[3], tuple(subst_params(o, mapping, memo) for o in e[4]), at_block if at_block is not None else e[5]))
+        elif e[0] == "inlined":
+            ev.append(("inlined", e[1], tuple(subst_params(a, mapping, memo) for a in e[2]), at_block if at_block is not None else e[3]))
+        else:
+            ev.append(e)
+    return Path([(subst_params(c[0], mapping, memo), c[1], at_block if at_block is not None else c[2]) for c in p.conds], ev,
+                subst_params(p.ret, mapping, memo) if p.ret is not None else None, p.end, p.blocks)
 
 
 def strip_refs(e):
